@@ -45,10 +45,14 @@ structure Layout where
   bitfields : List BitField
   deriving Repr, DecidableEq
 
-/-- data symbol of an object file: name, section, size -/
+/-- data symbol of an object file: name, section, section class, size.
+Section class (computed by the translator from the ELF section flags, not from its name):
+0 = not writable (`.rodata*`, `.text*`), 1 = relocated-then-read-only (`.data.rel.ro*`),
+2 = writable initialised data, 3 = `.bss`-like (NOBITS, writable), 4 = thread-local, 5 = COMMON -/
 structure ObjSym where
   name : String
   sect : String
+  cls : Nat
   size : Nat
   deriving Repr, DecidableEq
 
@@ -81,10 +85,10 @@ inductive BinOp where
 translator emits it together with the token string, and `render tree = tokens` is checked
 by the kernel). -/
 inductive CExpr where
-  | var (name : String)
-  | num (n : Nat) (spelling : String)
+  | var (name : Name)
+  | num (n : Nat) (spelling : Name)
   | paren (e : CExpr)
-  | un (op : String) (e : CExpr)
+  | un (op : Name) (e : CExpr)
   | bin (op : BinOp) (a b : CExpr)
   | cond (c a b : CExpr)
   deriving Repr, DecidableEq
